@@ -144,6 +144,18 @@ func scenCreateData(from common.Address, nonce uint64) []byte {
 	panic("harness: cannot grind contract address")
 }
 
+// scenGrind appends a salt to init code until the created address is an in-zone Quai address.
+func scenGrind(base []byte, from common.Address, nonce uint64) []byte {
+	for salt := 0; salt < 1<<20; salt++ {
+		code := append(append([]byte{}, base...), byte(salt>>16), byte(salt>>8), byte(salt))
+		b := crypto.CreateAddress(from, nonce, code, core.VZoneLoc).Bytes()
+		if b[0] == 0 && b[1]&0x80 == 0 {
+			return code
+		}
+	}
+	panic("harness: cannot grind contract address")
+}
+
 func scenMenu() []scenTx {
 	ten := new(big.Int).Mul(big.NewInt(1e18), big.NewInt(20))
 	return []scenTx{
@@ -172,6 +184,11 @@ func scenMenu() []scenTx {
 		}},
 		{"F:q0 Qi spend", func(s *scen) *types.Transaction {
 			return s.qiSpend(0)
+		}},
+		{"G:k1 create whose init code reverts (charged, fails)", func(s *scen) *types.Transaction {
+			nn := s.nonce(s.k[1])
+			code := scenGrind([]byte{0x60, 0x2a, 0x60, 0x00, 0x55, 0x60, 0x00, 0x60, 0x00, 0xfd}, s.k[1].Addr, nn) // SSTORE then REVERT
+			return s.n.QuaiTxAL(s.k[1], nn, nil, big.NewInt(0), 300000, new(big.Int).Mul(scenPrice, big.NewInt(4)), code, types.AccessList{{Address: crypto.CreateAddress(s.k[1].Addr, nn, code, core.VZoneLoc)}})
 		}},
 	}
 }
